@@ -841,8 +841,56 @@ let run_pools kvs ikvs =
     end) tr;
   Printf.sprintf "replay=%s uses=%d reuses=%d" (if !err = "" then "ok" else !err) !uses !reuse
 
+(* suite window (C07): the pooled sliding windows, replayed with the pool's observed choices *)
+let run_window kvs ikvs =
+  let cap = int_of_string (get kvs "cap") in
+  let capn = nat_of_int cap in
+  let ops = String.split_on_char '|' (get kvs "hist") in
+  let iobs = Array.of_list (String.split_on_char ',' (get_or ikvs "obs" "")) in
+  (* arrays the library's pool kept from earlier cases (flag k<hex> at first sight): the model starts with them in its pool, showing nothing *)
+  let leftovers = List.filter_map (fun o -> match String.split_on_char ':' o with
+      | [a; _; _; _; fl] when String.length fl > 1 && fl.[0] = 'k' ->
+        Some (nat_of_int (int_of_string a), { w_vis = []; w_junk = bytes_of_string (unhex (String.sub fl 1 (String.length fl - 1))) })
+      | _ -> None) (Array.to_list iobs) in
+  let st = ref { winit with ws_pool = leftovers } in
+  let out = ref [] in
+  let wbytes c k n =
+    let s = gen_bytes "rand" n (1000 * c + k + 1) in
+    bytes_of_string (String.map (fun ch -> if ch = '\000' then '\xa5' else ch) s) in
+  List.iteri (fun k op ->
+    let f = Array.of_list (String.split_on_char ':' op) in
+    let c = int_of_string f.(1) in
+    let cn = nat_of_int c in
+    let held = (match !st.ws_conn cn with Some _ -> true | None -> false) in
+    (* the array the library's pool handed out, as observed (arrays are numbered by the harness) *)
+    let observed_array () =
+      if k >= Array.length iobs then 0 else
+      try (match String.split_on_char ':' iobs.(k) with a :: _ -> int_of_string a | [] -> 0) with _ -> 0 in
+    let show a =
+      let d = string_of_bytes (wdict !st cn) and arr = string_of_bytes (warray !st cn) in
+      out := Printf.sprintf "%d:%d:%s:%s" a (String.length d) (fnv d) (fnv arr) :: !out in
+    let cur_array () = match !st.ws_conn cn with Some (a, _) -> int_of_nat a | None -> 0 in
+    match f.(0) with
+    | "get" ->
+      let a = if held then cur_array () else observed_array () in
+      (match wstep capn !st (WinGet (cn, nat_of_int a)) with Some s -> st := s | None -> ());
+      show (cur_array ())
+    | "w" ->
+      if not held then out := "skip" :: !out else begin
+        (match wstep capn !st (WinWrite (cn, wbytes c k (int_of_string f.(2)))) with Some s -> st := s | None -> ());
+        show (cur_array ())
+      end
+    | "put" ->
+      if not held then out := "skip" :: !out else begin
+        (match wstep capn !st (WinPut cn) with Some s -> st := s | None -> ());
+        out := "put" :: !out
+      end
+    | _ -> out := "?" :: !out) ops;
+  "obs=" ^ String.concat "," (List.rev !out)
+
 let suites : (string * ((string * string) list -> (string * string) list -> string)) list = [
   "pools", run_pools;
+  "window", run_window;
   "life", run_life;
   "ping", run_ping;
   "netconn", run_netconn;
